@@ -159,6 +159,13 @@ def gen_valid_doc(rng):
         elif rng.random() < 0.5:
             cfg["value"] = rng.choice([0, 1, -5, 3, 0.25, -100, 2.5])
         hc[key(*a)] = cfg
+    ks = list(hc)
+    if len(ks) >= 2 and rng.random() < 0.15:
+        # two hosts written as one YAML node (anchor + alias): the loader gets the *same* dictionary for both, and
+        # whatever it stores into one configuration it stores into the other
+        ka, kb = rng.sample(ks, 2)
+        if "value" not in hc[ka]:
+            hc[kb] = hc[ka]
     fw = {}
     for i in range(n):
         for j in range(n):
@@ -183,6 +190,19 @@ def _addrs(doc):
 
 def _some_host(doc, rng):
     return rng.choice(list(doc["host_configurations"].keys()))
+
+
+POOLS = {"services": ["ssh", "ftp", "http", "samba", "smtp", "80", "mysql"],
+         "processes": ["tomcat", "daclsvc", "schtask", "cron", "mysql", "ssh"],
+         "os": ["linux", "windows", "bsd", "os_0"]}
+
+
+def foreign(d, field, r):
+    """a name that is not one of this document's `field` names - by preference one that *is* such a name in other documents
+    of the same run (whatever the loader remembers from an earlier file must not make it valid here)"""
+    own = set(map(str, d[field]))
+    cand = [x for x in POOLS[field] if x not in own]
+    return r.choice(cand) if cand and r.random() < 0.6 else r.choice(["nonexistent", 7])
 
 
 def catalogue():
@@ -288,7 +308,10 @@ def catalogue():
     def _(d, r):
         sec, k = pick_action(d, r); e = d[sec][k]
         f = r.choice(["os", "service" if sec == "exploits" else "process"])
-        e[f] = r.choice(["nonexistent", "SSH ", 5, None])
+        pool = "os" if f == "os" else ("services" if f == "service" else "processes")
+        e[f] = r.choice([foreign(d, pool, r), "nonexistent", "SSH ", 5, None])
+        if f == "os" and e[f] is None:
+            e[f] = "nonexistent"          # `os: null` means "any OS": not a defect
 
     @rule("exploit/escalation probability outside [0,1]")
     def _(d, r):
@@ -336,9 +359,9 @@ def catalogue():
         cfg = d["host_configurations"][_some_host(d, r)]
         f = r.choice(["os", "services", "processes"])
         if f == "os":
-            cfg["os"] = r.choice(["nonexistent", None, 7])
+            cfg["os"] = r.choice([foreign(d, "os", r), None, 7])
         else:
-            cfg[f] = cfg[f] + [r.choice(["nonexistent", 7])]
+            cfg[f] = cfg[f] + [foreign(d, f, r)]
 
     @rule("host with a duplicated service or process")
     def _(d, r):
@@ -360,7 +383,7 @@ def catalogue():
         svc = d["services"][0]
         cfg["firewall"] = r.choice([[1], "x", 3, [], None, "", 0, False, 0.0,
                                     {"(0, 0)": [svc]}, {f"({n + 1}, 0)": [svc]}, {f"(1, {d['subnets'][0]})": [svc]},
-                                    {"(1, 0)": svc}, {"(1, 0)": None}, {"(1, 0)": ["nonexistent"]},
+                                    {"(1, 0)": svc}, {"(1, 0)": None}, {"(1, 0)": ["nonexistent"]}, {"(1, 0)": [foreign(d, "services", r)]},
                                     {"(1, 0)": [svc, svc]}, {"notanaddress": [svc]}, {"(1, 0, 0)": [svc]},
                                     {5: [svc]}])
 
@@ -406,7 +429,9 @@ def catalogue():
         ks = list(d["firewall"])
         if not ks:
             return False
-        k = r.choice(ks); d["firewall"][k] = d["firewall"][k] + [r.choice(["nonexistent", 5, None])]
+        k = r.choice(ks)
+        bad = r.choice([foreign(d, "services", r), 5, None])
+        d["firewall"][k] = r.choice([d["firewall"][k] + [bad], [bad]])
 
     @rule("defective subnet firewall rule for a pair the topology does not connect")
     def _(d, r):
@@ -436,11 +461,23 @@ def catalogue():
 CATALOGUE = catalogue()
 
 
-def tuples_to_lists(x):
+def tuples_to_lists(x, memo=None):
+    """plain lists / dicts for the YAML dumper; an object that occurs twice in the document stays one object, so that the
+    dumper writes it as an anchor and aliases (`&id001` / `*id001`) and the loader sees one shared mapping"""
+    memo = {} if memo is None else memo
+    if id(x) in memo:
+        return memo[id(x)]
     if isinstance(x, dict):
-        return {k: tuples_to_lists(v) for k, v in x.items()}
+        out = {}
+        memo[id(x)] = out
+        for k, v in x.items():
+            out[k] = tuples_to_lists(v, memo)
+        return out
     if isinstance(x, (list, tuple)):
-        return [tuples_to_lists(v) for v in x]
+        out = [tuples_to_lists(v, memo) for v in x]
+        if isinstance(x, list):
+            memo[id(x)] = out
+        return out
     return x
 
 
